@@ -277,6 +277,14 @@ S["ents_fan_in"] = dict(
     until=3, sims=[T("A", ents=2), T("B", 2), T("Z", ents=2)],
     conns=[CE("A", "e", "Z", "e", "po", "mi"), CE("A", "f", "Z", "e", "po", "mi"),
            CE("B", "e", "Z", "f", "po", "mi"), CE("A", "f", "Z", "f", "po", "mi", shift=2, init=True)])
+# the two entity pairs trigger the destination with different delays; the source emits on both
+# entities in every step (both connection orders)
+S["ents_two_trigger_delays"] = dict(
+    until=4, sims=[E("A", ents=2, init_event=0, next=[1, 1], emit_default=0), E("B", ents=2), T("X", 2)],
+    conns=[CE("A", "e", "B", "e", "eo", "ti"), CE("A", "f", "B", "f", "eo", "ti", shift=1)])
+S["ents_two_trigger_delays_rev"] = dict(
+    until=4, sims=[E("A", ents=2, init_event=0, next=[1, 1], emit_default=0), E("B", ents=2), T("X", 2)],
+    conns=[CE("A", "f", "B", "f", "eo", "ti", shift=1), CE("A", "e", "B", "e", "eo", "ti")])
 # a same-time loop that runs over different entities of the two simulators
 S["ents_weak_loop"] = dict(
     until=2, max_loop=4, groups=G1,
